@@ -29,6 +29,12 @@ def all_programs(tier, size=None, only=None, must=None, key=None, tails=(True,),
     return _PROGS[k]
 
 
+def odd_set(tier):
+    """Program set of rarely used forms and positions (yields inside tests, iterables, defaults, indexes;
+    list targets of for/with; a None-valued global; a value whose == is neither free nor boolean)."""
+    return ("odd", dict(size=2 if tier == "quick" else 3, only=M.ODD_BASE, must=M.ODD, key=("odd", tier)))
+
+
 def count_programs(tier, **kw):
     return len(all_programs(tier, **kw))
 
